@@ -144,7 +144,7 @@ class PipeGen:
         t = self.t(var)
         sc = self.scope(var)
         names = t.names()
-        keep = set(t.group)
+        keep = set(t.group) if self.chance(8) else set()  # a deselected grouping column keeps grouping the table
         vis = list(t.visible)
         perm = list(self.draw(st.permutations(vis)))
         k = self.draw(st.integers(1, len(perm)))
@@ -169,7 +169,7 @@ class PipeGen:
     def v_drop(self, var):
         t = self.t(var)
         sc = self.scope(var)
-        cands = [(n, c) for n, c in t.visible if c not in t.group]
+        cands = [(n, c) for n, c in t.visible if c not in t.group or self.chance(2)]
         if self.cfg.exclude_known and t.agg_cols:
             vis_agg = [c for _, c in t.visible if c in t.agg_cols]
             if len(vis_agg) >= 1:
@@ -493,6 +493,8 @@ class PipeGen:
         rt = self.t(rvar)
         if t.n * rt.n > 4000:
             return None  # keep products small (bounds are stated in the evidence rule)
+        if set(t.scope) & set(rt.scope):
+            return None  # operands sharing columns (e.g. a table and its collect(keep_col_refs=True)) cannot be joined
         how = self.pick(self.cfg.join_hows)
         if self.cfg.exclude_known and how in ("left", "full"):
             # K01 (open finding): computed columns on a null-padded side; excluded by construction
